@@ -52,6 +52,7 @@ type vpWorldCfg struct {
 	fixedThresholds *PeerScoreThresholds
 	symThresholds   bool // thresholds are solver variables accepted by the real validation
 	opts            []Option
+	allInMesh       bool // membership concrete: every peer is a connected v1.1 topic member in the mesh, not direct, not backed off; only scores and connection directions stay symbolic
 }
 
 func vpPeerName(i int) peer.ID { return peer.ID([]string{"p0", "p1", "p2", "p3", "p4", "p5", "p6"}[i]) }
@@ -93,6 +94,9 @@ func vpNewWorld(c vpWorldCfg) *vpWorld {
 	}
 	w.now = time.Now()
 	w.joined = vpBool("joined")
+	if c.allInMesh {
+		w.joined = true
+	}
 	tm := map[peer.ID]peerTopicState{}
 	n.ps.topics[vpT0] = tm
 	var meshMap, fanMap map[peer.ID]struct{}
@@ -118,6 +122,9 @@ func vpNewWorld(c vpWorldCfg) *vpWorld {
 			vpAssume(sc == sc && sc < 1e300 && sc > -1e300) // a number, as the real score function yields for valid parameters (C10)
 		}
 		direct = direct && c.direct
+		if c.allInMesh {
+			up, proto, inTopic, direct, mesh, fan, hasBO = true, 2, true, false, true, false, false
+		}
 		var q *rpcQueue
 		if up {
 			q = n.vpAddPeer(p, vpProtos[proto], outb)
